@@ -50,12 +50,17 @@ def make_curve_set(rng, mix, n_curves=None, n_points=None, ctype="weight", t_cen
     hi = rng.uniform(0.6, 0.97)
     xs = [lo + (hi - lo) * j / (n_points - 1) for j in range(n_points)]
     curves = []
-    for t in temps:
+    # "not detectable": one or two measured permeances of the set are exactly 0 (they are data like any other point)
+    zeros = set()
+    if rng.random() < 0.12:
+        for _ in range(rng.choice([1, 1, 2])):
+            zeros.add((rng.randrange(len(temps)), rng.randrange(n_points), rng.randrange(2)))
+    for it, t in enumerate(temps):
         comps, perms = [], []
-        for xw in xs:
+        for ix, xw in enumerate(xs):
             cw = pv.Composition(p=xw, type="weight")
             comps.append(cw if ctype == "weight" else cw.to_molar(mix))
-            perms.append(tuple(pv.Permeance(value=al[i] * math.exp(a[i] * xw - ea[i] / R * (1 / t - 1 / t_center)))
+            perms.append(tuple(pv.Permeance(value=0.0 if (it, ix, i) in zeros else al[i] * math.exp(a[i] * xw - ea[i] / R * (1 / t - 1 / t_center)))
                                for i in range(2)))
         curves.append(pv.DiffusionCurve(mixture=mix, membrane_name="verif_membrane", feed_temperature=t,
                                         feed_compositions=comps, permeances=perms))
